@@ -637,6 +637,72 @@ func adapterGoroutines() int {
 	return c
 }
 
+var lifecycles = []string{"stop-at-once", "traffic-then-stop", "updates-unread-then-stop", "read-one-then-stop", "read-all-then-stop", "stop-twice"}
+
+func watchLifecycles(t *testing.T, e *env, res *result, r *rand.Rand, name string) {
+	kv := e.bucketH(t, name+"_lc", time.Hour, 64)
+	for _, lc := range lifecycles {
+		key := "k_" + lc
+		g0 := adapterGoroutines()
+		wt, err := kv.Watch(key)
+		if err != nil {
+			t.Fatalf("watch: %v", err)
+		}
+		var rev uint64
+		write := func(n int) {
+			for i := 0; i < n; i++ {
+				if rev == 0 {
+					rev, _ = kv.Create(key, []byte(fmt.Sprintf("v%d", i)))
+				} else {
+					rev, _ = kv.Update(key, []byte(fmt.Sprintf("v%d", i)), rev)
+				}
+			}
+		}
+		switch lc {
+		case "traffic-then-stop":
+			write(3 + r.IntN(4))
+		case "updates-unread-then-stop":
+			_ = wt.Updates()
+			write(3 + r.IntN(4))
+			time.Sleep(20 * time.Millisecond)
+		case "read-one-then-stop":
+			ch := wt.Updates()
+			write(3 + r.IntN(4))
+			select {
+			case <-ch:
+			case <-time.After(2 * time.Second):
+			}
+			time.Sleep(20 * time.Millisecond)
+		case "read-all-then-stop":
+			ch := wt.Updates()
+			n := 3 + r.IntN(4)
+			write(n)
+			for got := 0; got < n+1; got++ { // +1: the "nil" marker after the initial state
+				select {
+				case <-ch:
+				case <-time.After(2 * time.Second):
+					got = n + 1
+				}
+			}
+		}
+		wt.Stop()
+		if lc == "stop-twice" {
+			wt.Stop()
+		}
+		// give the adapter's goroutines a moment to wind down
+		gEnd := adapterGoroutines()
+		for w := 0; w < 40 && gEnd > g0; w++ {
+			time.Sleep(10 * time.Millisecond)
+			gEnd = adapterGoroutines()
+		}
+		res.Evals++
+		res.obs("c14.watch_lifecycles", 1)
+		if gEnd > g0 {
+			res.viol("C14", "watch-goroutines", "goroutines-left-after-stop:"+lc, fmt.Sprintf("watch lifecycle %q: adapter goroutines %d before the watch, %d still there 400 ms after Stop()", lc, g0, gEnd))
+		}
+	}
+}
+
 func batchWatch(t *testing.T, e *env, res *result, r *rand.Rand, k int) {
 	nRuns := envInt("VERIF_BATCH", 5)
 	for ri := 0; ri < nRuns; ri++ {
@@ -669,6 +735,11 @@ func batchWatch(t *testing.T, e *env, res *result, r *rand.Rand, k int) {
 			want = append(want, fmt.Sprintf("%x@%d", "", rev+1))
 		}
 		want = append(want, "nil")
+		// watches that are stopped early: never read, Updates() never called, or left with
+		// unread events - none of them may leave a goroutine of the adapter behind
+		if ri%2 == 0 {
+			watchLifecycles(t, e, res, r, name)
+		}
 		g0 := adapterGoroutines()
 		wt, err := kv.Watch(key)
 		if err != nil {
